@@ -181,6 +181,17 @@ def run_tier(prop, tier, seed, binp, out, runs, budget, nworkers, race, summarie
         except Exception as e:
             infra_msgs.append("unreadable summary %s: %s" % (sp, e))
 
+def selftest_record(prop):
+    """The last cross-process determinism proof of this property (a separate run: check.py <id> --selftest)."""
+    p = os.path.join(VERIF, "selftest", prop + ".json")
+    try:
+        d = json.load(open(p))
+        return {"from": "separate run of check.py %s --selftest" % prop, "ok": d.get("ok"), "processes": d.get("processes"),
+                "run_records_compared": d.get("run_records_compared"), "divergences": len(d.get("divergences") or []),
+                "configurations": "GOMAXPROCS 1/4/16 concurrently; 30 simultaneous processes; race-visible build"}
+    except (OSError, ValueError):
+        return {"from": "not run"}
+
 def selftest(prop, tier, seed, tmp, nruns):
     """Determinism proof for one property: every run index must give the same event-log hash, step count,
     switch count and violation signatures in every process, whatever GOMAXPROCS, build flavour or machine load."""
@@ -391,6 +402,7 @@ def main():
                 "known_findings_seen": [k["id"] for k, _ in knownhits],
                 "violation_signatures": [v["signature"] for v in new],
                 "build_seconds": round(build_s, 1),
+                "determinism_selftest": selftest_record(prop),
             },
             "assumptions": (summaries[0].get("assumptions") or [] if summaries else []),
             "wall_s": round(wall, 1),
